@@ -338,6 +338,45 @@ impl Check for DrawdownScan {
             }
         }
 
+        // ---- layer (e): the trading summary generator kept by a consumer of the audit stream --------
+        // two assets on two venues; the second venue's clock runs 5 s ahead, so the summary's own
+        // clock is usually past the first asset's next snapshot: each asset's curve is still its own
+        {
+            use crate::props::world::{self, InstrumentDef, KindDef, UnitDef};
+            use barter_instrument::asset::AssetIndex;
+            let defs = vec![
+                InstrumentDef { exchange: 0, base: 0, quote: 2, kind: KindDef::Spot, unit: UnitDef::NoSpec },
+                InstrumentDef { exchange: 2, base: 1, quote: 3, kind: KindDef::Spot, unit: UnitDef::NoSpec },
+            ];
+            let indexed = world::index(&defs);
+            let state = world::engine_state(&indexed, barter::engine::state::trading::TradingState::Disabled);
+            let mut summary = barter::statistic::summary::TradingSummaryGenerator::init(Decimal::ZERO, ts(T0_MS), ts(T0_MS), &state.instruments, &state.assets);
+            let a = AssetIndex(0);
+            let b = AssetIndex(indexed.assets().len() - 1);
+            let bal = |v: Decimal| Balance::new(v, v);
+            let mut scan = Scan::new(pts[0].0, pts[0].1);
+            for (i, (t, v)) in pts.iter().enumerate() {
+                summary.update_from_balance(Snapshot(&AssetBalance { asset: a, balance: bal(*v), time_exchange: ts(*t) }));
+                if i > 0 {
+                    scan.step(*t, *v);
+                }
+                // the other venue reports with a clock 5 s ahead
+                summary.update_from_balance(Snapshot(&AssetBalance { asset: b, balance: bal(Decimal::from(1000 + i as u32)), time_exchange: ts(*t + 5_000) }));
+            }
+            let sheets = summary.generate(Daily);
+            let Some((_, sheet)) = sheets.assets.get_index(a.index()) else {
+                bad!("summary-asset-sheet:missing", "trading summary has no sheet at asset index 0");
+            };
+            let mut all = scan.completed.clone();
+            all.extend(scan.in_progress());
+            if sheet.balance_end != Some(bal(pts[pts.len() - 1].1)) || sheet.drawdown.as_ref().map(conv) != scan.in_progress() {
+                bad!("summary-asset-sheet:curve", "asset fed through TradingSummaryGenerator::update_from_balance next to an asset whose venue clock runs 5 s ahead: balance_end {:?} / drawdown {:?}, its own curve ends at {} with {:?} in progress (curve {pts:?})", sheet.balance_end, sheet.drawdown, pts[pts.len() - 1].1, scan.in_progress());
+            }
+            if let Err((sig, msg)) = check_max_mean("summary-asset-sheet", &all, sheet.drawdown_max.clone().map(|m| conv(&m.0)), sheet.drawdown_mean.clone().map(|m| (m.mean_drawdown, m.mean_drawdown_ms))) {
+                bad!(sig, "asset fed through TradingSummaryGenerator::update_from_balance: {msg}");
+            }
+        }
+
         // classification from the scan
         let mut scan = Scan::new(pts[0].0, pts[0].1);
         let mut exact_recovery = false;
@@ -381,7 +420,7 @@ impl Check for DrawdownScan {
 }
 
 pub fn run(ctx: &mut Ctx) {
-    ctx.rule = "drawdown_scan: 1..60|150 timed points, strictly increasing times, values from a small grid (1..7 mostly, up to 200, a few <= 0 after the first) with +-0.1 perturbations so that equal consecutive values, exact recoveries to the peak and new highs by one tick are common; first value > 0. Fed to DrawdownGenerator (default and init), Max/Mean generators (updated from empty, and constructed from the first drawdown through init()), TearSheetAssetGenerator (balances; a third of them with part of the total locked, free < total) and TearSheetGenerator (cumulative PnL of closed positions with varying entry price / size), each compared after every point with an independent peak-to-trough scan; after 15% of the points the live generators themselves (not copies) are asked for the current drawdown / an interim tear sheet and keep being updated afterwards. non-trivial = >= 2 completed drawdowns and one in progress at the end; distinct by hash of the case.".into();
+    ctx.rule = "drawdown_scan: 1..60|150 timed points, strictly increasing times, values from a small grid (1..7 mostly, up to 200, a few <= 0 after the first) with +-0.1 perturbations so that equal consecutive values, exact recoveries to the peak and new highs by one tick are common; first value > 0. Fed to DrawdownGenerator (default and init), Max/Mean generators (updated from empty, and constructed from the first drawdown through init()), TearSheetAssetGenerator (balances; a third of them with part of the total locked, free < total) and TearSheetGenerator (cumulative PnL of closed positions with varying entry price / size), and (final sheet only) a TradingSummaryGenerator fed with two assets whose venues' clocks are 5 s apart, each compared after every point with an independent peak-to-trough scan; after 15% of the points the live generators themselves (not copies) are asked for the current drawdown / an interim tear sheet and keep being updated afterwards. non-trivial = >= 2 completed drawdowns and one in progress at the end; distinct by hash of the case.".into();
     ctx.assumptions = vec![
         "running maxima are positive (first value > 0); later values may be <= 0".into(),
         "tear-sheet generate() is called once per generator clone, as the engine API does (generate folds the in-progress drawdown into max/mean)".into(),
